@@ -59,8 +59,14 @@ def command(ev):
         return "%s %s" % (op, fmt(quat(ev["p"])))
     if op in ("mulaxis", "setaxis"):
         return "%s %s %d" % (op, fmt(ev["ax"]), ev["k"])
-    if op in ("neg", "roundtrip", "negpose"):
+    if op in ("neg", "roundtrip", "negpose", "mulinv"):
         return op
+    if op == "dsub":
+        return "dsub %s %d %d %d" % (fmt(ev["ax"]), ev["k"], ev["sa"], ev["sb"])
+    if op == "dint":
+        return "dint %s %d" % (fmt(ev["v"]), ev["sc"])
+    if op == "intzero":
+        return "intzero %s %d" % (fmt(ev["v"]), ev["qs"])
     if op in ("rotvec", "trnvec", "z2vec"):
         return "%s %s" % (op, fmt(ev["v"]))
     if op == "integrate":
@@ -79,6 +85,12 @@ def feature(ev):
     op = ev["op"]
     if op in ("mulaxis", "setaxis", "integrate"):
         return "k=%d" % ev["k"]
+    if op == "dsub":
+        return "%s:%s" % ("zero-relative-rotation" if ev["k"] == 0 else "quarter-turn",
+                          "same" if (ev["sa"], ev["sb"]) == (1, 1) else "negated" if ev["sa"] * ev["sb"] < 0 and abs(ev["sa"] * ev["sb"]) == 1
+                          else "scaled")
+    if op == "dint":
+        return "zero-velocity" if not any(ev["v"]) else "zero-step"
     if op == "euler":
         return "".join("i" if c.islower() else "e" for c in ev["sq"])
     if op == "eulerbad":
@@ -100,6 +112,40 @@ def verdict(st, got):
         return None if tk[:1] == ["error"] else ("accepted", "malformed sequence accepted: " + got[:80])
     if tk[:1] == ["error"]:
         return "error", "mju_error: " + got[:120]
+    if ev["op"] == "dsub":
+        if tk[0] != "D" or len(tk) != 23:
+            return "protocol", got[:80]
+        x = [float(v) for v in tk[1:22]]
+        if not all(math.isfinite(v) for v in x):
+            return "nonfinite", "mjd_subQuat / mju_subQuat returned non-finite values: %s" % tk[1:22]
+        ret = ev["ret"]
+        if max(abs(a - b) for a, b in zip(x[0:3], ret["sub"])) > 1e-9:
+            return "sub", "subQuat = %s quarter turns, specification %s" % (x[0:3], list(ret["sub"]))
+        if len(ret["exact"]):
+            da, db, tol = list(ret["exact"]["da"]), list(ret["exact"]["db"]), 1e-12
+        else:
+            h = math.pi / 4
+            da = [e + h * k + (1 - h) * kk for e, k, kk in zip((1, 0, 0, 0, 1, 0, 0, 0, 1), ret["K"], ret["KK"])]
+            db = [-da[3 * (i % 3) + i // 3] for i in range(9)]
+            tol = 1e-9
+        if max(abs(a - b) for a, b in zip(x[3:12], da)) > tol:
+            return "Da", "Da = %s, specification %s" % ([round(v, 9) for v in x[3:12]], [round(v, 9) for v in da])
+        if max(abs(a - b) for a, b in zip(x[12:21], db)) > tol:
+            return "Db", "Db = %s, specification %s" % ([round(v, 9) for v in x[12:21]], [round(v, 9) for v in db])
+        if tk[22] != "1":
+            return "nullable", "mjd_subQuat with one output differs from the call with both outputs"
+        return None
+    if ev["op"] == "dint":
+        if tk[0] != "J" or len(tk) != 22:
+            return "protocol", got[:80]
+        x = [float(v) for v in tk[1:22]]
+        if not all(math.isfinite(v) for v in x):
+            return "nonfinite", "mjd_quatIntegrate returned non-finite values: %s" % tk[1:22]
+        ret = ev["ret"]
+        want = list(ret["dquat"]) + list(ret["dvel"]) + list(ret["dscale"])
+        if max(abs(a - b) for a, b in zip(x, want)) > 1e-12:
+            return "jac", "Dquat, Dvel, Dscale = %s, specification %s" % (x, want)
+        return None
     if ev["op"] in ("rotvec", "trnvec"):
         if tk[0] != "v" or len(tk) != 4:
             return "protocol", got[:80]
@@ -157,7 +203,7 @@ def run(ctx):
     with cf.ThreadPoolExecutor(len(jobs)) as ex:
         futs = {k: ex.submit(f) for k, f in jobs.items()}
         out = {k: f.result() for k, f in futs.items()}
-    need = {"MC": ["DoMulQuat", "DoPreMulQuat", "DoMulAxis", "DoSetAxis", "Neg", "RoundTrip", "DoRotVec", "DoIntegrate", "DoZ2Vec",
+    need = {"MC": ["DoDSub", "DoDInt", "DoIntZero", "MulInverse", "DoMulQuat", "DoPreMulQuat", "DoMulAxis", "DoSetAxis", "Neg", "RoundTrip", "DoRotVec", "DoIntegrate", "DoZ2Vec",
                    "DoMulPose", "NegPose", "DoTrnVec", "DoEulerBad"],
             "Euler": ["DoEuler"]}
     single = []                      # independent cases: (origin, state)
@@ -188,6 +234,17 @@ def run(ctx):
     if not single:
         raise Machinery("no returned calls in the dumped states")
     single.sort(key=lambda c: (c[0], command(c[1]["ev"]), setcmd(c[1]["ev"]["in"])))
+    # vacuity guard: the derivative routines must have been exercised at zero relative rotation / zero scaled velocity with
+    # identical, negated and scaled arguments
+    zero = {"dsub:same": 0, "dsub:negated": 0, "dsub:scaled": 0, "dint:zero-velocity": 0, "dint:zero-step": 0}
+    for (_k, st) in single:
+        e = st["ev"]
+        if e["op"] == "dsub" and e["k"] == 0:
+            zero["dsub:" + feature(e).split(":")[1]] += 1
+        elif e["op"] == "dint":
+            zero["dint:" + feature(e)] += 1
+    if not all(zero.values()):
+        raise Machinery("vacuity: degenerate argument pairs not exercised: %r" % zero)
 
     # ---- scripts: independent cases (set + call), then chains (calls only, state carried by the implementation)
     lines, where = [], []            # where[i] = index of the answer line of case i
